@@ -362,6 +362,9 @@ def run_indicator_task(source, contracts, loops, spec, variant, natives=None, ti
             if not ctx.feasible(st):
                 continue
             ctx.bindings[obj.oid] = top
+            from .replay import indicator_extractor
+
+            ctx.extract = indicator_extractor(spec, variant, env, mode)
             bounds = [top]
             # helper graph: specs of the sub / managed indicators, bound to the real instances
             for path, info in spec.subs.items():
